@@ -153,9 +153,9 @@ Record rule := {
     handed over, owned by C13) and C15-F1 *)
 Record fixes := { fx_c08f2 : bool; fx_c13f3 : bool; fx_f1 : bool; fx_f4 : bool }.
 Definition pinned : fixes := {| fx_c08f2 := false; fx_c13f3 := false; fx_f1 := false; fx_f4 := false |}.
-(** the tree as it is now: C08-F2 repaired by a779db8, C13-F3 by a5ef279 *)
+(** the tree before C15's own repairs: C08-F2 repaired by a779db8, C13-F3 by a5ef279 *)
 Definition current : fixes := {| fx_c08f2 := true; fx_c13f3 := true; fx_f1 := false; fx_f4 := false |}.
-(** ... with the repair candidates fixes/C15-F1.diff and fixes/C15-F4.diff *)
+(** the tree as it is now: C15-F1 repaired by 41fd1db, C15-F4 by 35453b2 *)
 Definition repaired : fixes := {| fx_c08f2 := true; fx_c13f3 := true; fx_f1 := true; fx_f4 := true |}.
 
 (** * what heimdall sees *)
